@@ -32,9 +32,14 @@ opaque!(AmqpError, SessionControlTx, LinkFrameRx, LinkFrameTx, MessageDecodeErro
 #[verifier::external_body]
 pub struct DeliveryTag { _p: u8 }
 impl Clone for DeliveryTag { #[verifier::external_body] fn clone(&self) -> (r: Self) ensures r == *self { unimplemented!() } }
+/// DeliveryTag's `==` is value equality (ByteBuf: derived PartialEq); stated through vstd's PartialEqSpecImpl so that `Option<DeliveryTag> == Option<DeliveryTag>` has a specification as well
+impl vstd::std_specs::cmp::PartialEqSpecImpl for DeliveryTag {
+    open spec fn obeys_eq_spec() -> bool { true }
+    open spec fn eq_spec(&self, o: &DeliveryTag) -> bool { *self == *o }
+}
 impl PartialEq for DeliveryTag {
     #[verifier::external_body]
-    fn eq(&self, o: &Self) -> (r: bool) ensures r == (*self == *o) { unimplemented!() }
+    fn eq(&self, o: &Self) -> (r: bool) { unimplemented!() }
 }
 
 opaque!(OtherState);
@@ -173,6 +178,15 @@ impl IncompleteTransfer {
             &&& final(self).performative.delivery_tag == (if old(self).performative.delivery_tag is Some { old(self).performative.delivery_tag } else { other.delivery_tag })
             &&& final(self).performative.message_format == (if old(self).performative.message_format is Some { old(self).performative.message_format } else { other.message_format })
             &&& final(self).performative.handle == old(self).performative.handle
+            &&& final(self).performative.settled == (match old(self).performative.settled {
+                    Some(v) => if v || other.settled is None { Some(v) } else { other.settled },
+                    None => other.settled,
+                })       // [C02.merge.settled-flag] [C10.merge.settled-flag] the settled flag of a multi-frame delivery: a frame that leaves it unset changes nothing, and once any frame has said `true` it stays true (AMQP 2.7.5) -- this flag decides whether the receiver records the delivery as unsettled at all
+            &&& final(self).performative.state == (match (old(self).performative.state, other.state) {
+                    (s0, None) => s0,
+                    (Some(s0), Some(s1)) => if s0.spec_is_terminal() { Some(s0) } else { Some(s1) },
+                    (None, Some(s1)) => Some(s1),
+                })       // [C02.merge.terminal-state-kept] [C10.merge.terminal-state-kept] a delivery state carried by a later frame replaces an earlier one unless that one was terminal: no later transfer alters a terminal state
         },
         r is Err ==> r->Err_0 is InconsistentFieldInMultiFrameDelivery,
 //@@ end
@@ -186,6 +200,15 @@ impl IncompleteTransfer {
         final(self).buffer@ == old(self).buffer@.push(other),   // [C10.append.in-order] the frame's payload (empty or not) is appended after everything buffered so far
         final(self).performative == old(self).performative,
         final(self).wf(),                                       // [C10.append.no-overflow] section counters stay bounded by the bytes buffered: no overflow for any byte content
+        ({
+            let m = if other@.len() >= 2 { other@.len() - 2 } else { 0 };
+            let n = hdr_count(other@, m);
+            let off = other@.len() - hdr_last(other@, m);
+            // [C10.append.section-position] the position the receiver keeps for a partial delivery (what it reports as `received` when the link resumes) advances by exactly what the new frame holds:
+            // no section header in it -> same section, the offset grows by the frame's length; otherwise the section number grows by the headers seen (the first section is number 0) and the offset restarts at the last of them
+            if n == 0 { final(self).section_number == old(self).section_number && final(self).section_offset as int == old(self).section_offset as int + off }
+            else { final(self).section_offset as int == off && final(self).section_number == (match old(self).section_number { None => Some((n - 1) as u32), Some(v) => Some((v as int + n) as u32) }) }
+        }),
 //@@ entry
         proof { lemma_concat_push(self.buffer@, other); }
 //@@ end
@@ -396,6 +419,11 @@ impl ReceiverInner {
     ensures
         final(self).wf() || !old(self).wf(), final(self).buffered().len() <= old(self).buffered().len(),
         (final(self).incomplete_transfer is Some) == (old(self).incomplete_transfer is Some),
+        ({
+            let tag = if delivery_tag is Some { *delivery_tag } else { match old(self).incomplete_transfer { Some(i) => i.performative.delivery_tag, None => None } };
+            old(self).incomplete_transfer is Some && (tag != old(self).incomplete_transfer->Some_0.performative.delivery_tag || !(state is Received))
+                ==> final(self).incomplete_transfer == old(self).incomplete_transfer
+        }),       // [C10.state.only-the-named-delivery-is-trimmed] a delivery state that names ANOTHER delivery (or is not `received`) leaves the delivery being reassembled exactly as it is: what the application later receives is not cut by a state meant for a different delivery
         final(self).link.told@ == old(self).link.told@.push(if delivery_tag is Some { *delivery_tag } else { match old(self).incomplete_transfer { Some(i) => i.performative.delivery_tag, None => None } }),   // [C10.continuation.state-under-the-deliverys-tag] a continuation frame may omit the delivery-tag: a delivery state carried by such a frame is recorded under the tag of the delivery being reassembled (its first frame's), it is not refused for lack of a tag
 //@@ end
 
